@@ -68,7 +68,7 @@ def main():
                     continue
                 env = dict(os.environ, VERIF_REPO=tmp)
                 rd = os.path.join(tmp, "replays")
-                cmd = ["/venv/bin/python", os.path.join(VERIF, "check.py"), prop, "--no-evidence", "--replay-dir", rd,
+                cmd = ["/venv/bin/python", os.path.join(VERIF, "check.py"), prop, "--no-evidence", "--no-shrink", "--replay-dir", rd,
                        "--jobs", str(args.jobs)]
                 if args.count:
                     cmd += ["--count", str(args.count)]
